@@ -55,7 +55,32 @@ def _tree_diff(a, b):
     return node(a, k), node(b, k)
 
 
+def _has_dfar0pad(case):
+    """does some segment contain a two-word landing pad (far pointer with B=0 and offset 0, tag word 0),
+    i.e. the pad of a double-far pointer to a zero-sized struct at word 0 of a segment"""
+    f = case.split()
+    if len(f) < 4 or f[3] in ("_", ""):
+        return False
+    for h in f[3].split(","):
+        if h.startswith("Z") or h == "-":
+            continue
+        b = bytes.fromhex(h)
+        for i in range(0, len(b) - 15, 8):
+            w = int.from_bytes(b[i:i + 8], "little")
+            t = int.from_bytes(b[i + 8:i + 16], "little")
+            if t == 0 and w & 7 == 2 and (w >> 3) & ((1 << 29) - 1) == 0:
+                return True
+    return False
+
+
 def classify(run, case, impl, model):
+    sig = _classify(run, case, impl, model)
+    if "/impl=null/" in sig and _has_dfar0pad(case):
+        sig += "+dfar0pad"
+    return sig
+
+
+def _classify(run, case, impl, model):
     d = _first_diff(impl, model)
     if d is None:
         return "length"
@@ -67,6 +92,8 @@ def classify(run, case, impl, model):
         g = b[2:-1].split(",")
         if g[5] == "1" and int(g[2]) >= 1 << 29:
             return "%s/impl=err/spec=complist-count-ge-2^29" % op
+    if a == "null" and _re.fullmatch(r"S\(\d+,0,0,0\)", b):
+        return "%s/impl=null/spec=empty-struct-at-word-0" % op
     if a[:1] == "T" and b[:1] == "T" or a[:1] == "X" and b[:1] == "X":
         x, y = _tree_diff(a[1:], b[1:])
         return "%s/tree/impl=%s/spec=%s" % (op, x, y)
@@ -81,5 +108,7 @@ def violates(run, case, impl, model):
         return False
     k, a, b = d
     if a in ("err", "panic", "<missing>"):
-        return False
+        # a refusal is a violation only on messages that are spec-valid by construction
+        # (the encoder's; they carry the expected tree) and that the specification accepts
+        return len(case.split()) > 5 and b not in ("err", "panic")
     return True
